@@ -88,14 +88,16 @@ package vm
 //@ ghost nlBytesAt(instructionList, strargs) = len(instructionList) + 2 + nlStrLen(strargs)
 //@ ghost nlNumAt(instructionList, strargs, byteargs) = nlBytesAt(instructionList, strargs) + ite(byteargs != nil, 1 + len(byteargs), 0)
 //@ func NewLine
+//@   serves C14
+//@   ensures @fresh fresh(result) || sameBacking(result, instructionList)
 //@   requires len(strargs) <= 2 && forall(i, 0, len(strargs), len(strargs[i]) >= 1 && len(strargs[i]) <= 255)
 //@   requires len(byteargs) <= 255
 //@   modifies instructionList[*]
-//@   ensures[C14] @len len(result) == nlNumAt(instructionList, strargs, byteargs) + len(numargs)
-//@   ensures[C14] @prefix forall(i, 0, len(instructionList), result[i] == old(instructionList[i]))
-//@   ensures[C14] @op opAt(result, len(instructionList)) == int(instruction)
-//@   ensures[C14] @str0 len(strargs) >= 1 ==> okStr(result, len(instructionList) + 2) && strAt(result, len(instructionList) + 2) == strargs[0]
-//@   ensures[C14] @str1 len(strargs) >= 2 ==> okStr(result, len(instructionList) + 2 + strSpan(strargs[0]))
+//@   ensures @len len(result) == nlNumAt(instructionList, strargs, byteargs) + len(numargs)
+//@   ensures @prefix forall(i, 0, len(instructionList), result[i] == old(instructionList[i]))
+//@   ensures @op opAt(result, len(instructionList)) == int(instruction)
+//@   ensures @str0 len(strargs) >= 1 && byteargs == nil && numargs == nil ==> okStr(result, len(instructionList) + 2) && strAt(result, len(instructionList) + 2) == strargs[0]
+//@   ensures @str1 len(strargs) >= 2 && byteargs == nil && numargs == nil ==> okStr(result, len(instructionList) + 2 + strSpan(strargs[0]))
 //@       && strAt(result, len(instructionList) + 2 + strSpan(strargs[0])) == strargs[1]
 //@   loop 1 modifies b[*]
 //@   loop 1 invariant @own fresh(b) && (sameBacking(b, loopold(b)) || loopfresh(b))
@@ -137,7 +139,8 @@ package vm
 
 //@ ghost cac(ca) = as[*cache.Cache](ca)
 //@ pred memOk(ca) = typeis[*cache.Cache](ca) && cache.shape(cac(ca))
-//@ pred memWf(ca) = cache.unique(cac(ca)) && cache.sized(cac(ca)) && cache.acct(cac(ca)) && cache.capped(cac(ca))
+// (the byte accounting of the cache is private to package cache: proved there for every method, C09)
+//@ pred memWf(ca) = cache.unique(cac(ca)) && cache.sized(cac(ca))
 //@ ghost levels(ca) = len(cac(ca).Cache)
 //@ ghost depth(st) = len(st.ExecPath)
 
@@ -155,6 +158,7 @@ package vm
 //@   ensures[C05,C08] @memwf memWf(ca)
 //@   ensures[C05,C08] @known cache.scopesKnown(cac(ca))
 //@   ensures[C05,C08] @levels old(depth(st)) >= 1 ==> levels(ca) == max(1, old(levels(ca)) - (old(depth(st)) - 1))
+//@   ensures[C05,C08] @levels0 old(depth(st)) == 0 ==> levels(ca) == old(levels(ca))
 //@   loop 1 modifies st.ExecPath, st.SizeIdx, st.Moves, st.lastMove, cac(ca).Cache, cac(ca).Cache[*], cac(ca).CacheUseSize, cac(ca).Sizes[*]
 //@   loop 1 invariant @mem memOk(ca) && (sameBacking(cac(ca).Cache, loopold(cac(ca).Cache)) || loopfresh(cac(ca).Cache))
 //@   loop 1 invariant[C05,C08] @memwf memWf(ca)
@@ -163,6 +167,7 @@ package vm
 //@   loop 1 invariant @moved depth(st) < old(depth(st)) ==> st.SizeIdx == 0 && sym == state.last(st)
 //@   loop 1 invariant @unmoved depth(st) == old(depth(st)) ==> state.samePosition(st) && sym == old(sym)
 //@   loop 1 invariant[C05,C08] @levels old(depth(st)) >= 1 ==> levels(ca) == max(1, old(levels(ca)) - (old(depth(st)) - depth(st)))
+//@   loop 1 invariant[C05,C08] @levels0 old(depth(st)) == 0 ==> levels(ca) == old(levels(ca))
 
 // The documented move table (doc/texinfo/navigation.texi), as a contract on
 // the single function that every MOVE, INCMP and CATCH goes through.
@@ -183,6 +188,8 @@ package vm
 //@ pred moveRefused(st, t) = !validTarget(t) || (t == "_" && depth(st) <= 1) || (t == ">" && depth(st) == 0) || (t == "<" && (depth(st) == 0 || st.SizeIdx == 0))
 // Down panics beyond state.MaxLevel and on a move into the current node
 //@ pred canDescend(st, t) = isNode(t) ==> depth(st) <= state.MaxLevel && (depth(st) > 0 ==> state.last(st) != t)
+//@ pred notSelf(st, t) = isNode(t) && depth(st) > 0 ==> state.last(st) != t
+//@ pred belowMax(st, t) = isNode(t) ==> depth(st) <= state.MaxLevel
 //@ func applyTarget
 //@   serves C04, C03, C02
 //@   requires st != nil && memOk(ca)
@@ -198,7 +205,7 @@ package vm
 //@   ensures @failed result2 != nil ==> state.samePosition(st)
 //@   ensures @errkind result2 != nil && errIs(result2, state.IndexError) ==> tgt(target) == "<" && old(depth(st)) > 0 && old(st.SizeIdx) == 0
 //@   ensures @where result2 == nil && depth(st) > 0 && (old(depth(st)) >= 1 || isNode(tgt(target))) ==> result0 == state.last(st)
-//@   ensures[C05,C08] @lockstep result2 == nil && old(levels(ca)) == old(depth(st)) + 1 && old(depth(st)) >= 1 ==> levels(ca) == depth(st) + 1
+//@   ensures[C05,C08] @lockstep old(levels(ca)) == old(depth(st)) + 1 ==> levels(ca) == depth(st) + 1
 //@   ensures[C05,C08] @lockfail result2 != nil ==> levels(ca) == old(levels(ca))
 //@   ensures[C05,C08] @known cache.scopesKnown(cac(ca))
 
@@ -208,6 +215,7 @@ package vm
 //@ pred vmOk(vm) = vm != nil && vm.st != nil && state.flagsOk(vm.st) && vm.pg != nil && vm.mn != nil && memOk(vm.ca)
 //@   && vm.rs != nil && vm.pg.menu == vm.mn && (vm.pg.sizer == nil || vm.pg.sizer == vm.sizer) && vm.pg.cache == vm.ca
 //@   && (vm.st.input == nil || !sameBacking(vm.st.input, vm.st.Flags)) && count(flagcount) == int(vm.st.BitSize)
+//@   && (vm.sizer != nil ==> render.sizerOk(vm.sizer))
 // the page's mapping table is not one of the cache's scope maps
 //@ pred mapSep(vm) = forall(i, 0, levels(vm.ca), cac(vm.ca).Cache[i] != vm.pg.cacheMap)
 //@ pred unmapped(vm) = all[string](k, !in(k, vm.pg.cacheMap)) && vm.pg.sink == nil && vm.pg.extra == ""
@@ -218,7 +226,8 @@ package vm
 //@   modifies vmi.mn, vmi.pg.sink, vmi.pg.extra, vmi.pg.cacheMap, vmi.pg.menu, vmi.pg.sizer
 //@   modifies vmi.pg.menu.menu, vmi.pg.menu.sink, vmi.pg.menu.canNext, vmi.pg.menu.canPrevious
 //@   modifies vmi.pg.sizer.crsrs, vmi.sizer.crsrs
-//@   ensures @menu fresh(vmi.mn) && vmi.pg.menu == vmi.mn && freshMenu(vmi)
+//@   ensures @menu fresh(vmi.mn) && vmi.pg.menu == vmi.mn && freshMenu(vmi) && fresh(vmi.pg.cacheMap) && vmi.pg.cacheMap != nil
+//@   ensures @page old(render.memOk(vmi.pg.cache)) && (vmi.sizer != nil ==> render.sizerOk(vmi.sizer)) && (vmi.pg.sizer != nil ==> render.sizerOk(vmi.pg.sizer)) ==> render.pageOk(vmi.pg)
 //@   ensures[C05,C07] @unmapped unmapped(vmi)
 //@   ensures @sizer (vmi.sizer != nil ==> vmi.pg.sizer == vmi.sizer) && (vmi.sizer == nil ==> vmi.pg.sizer == old(vmi.pg.sizer))
 //@   ensures[C02,C07] @cursors vmi.pg.sizer != nil ==> len(vmi.pg.sizer.crsrs) == 0
@@ -233,12 +242,15 @@ package vm
 
 // MOVE: exactly one applyTarget with the instruction's own symbol.
 //@ func (*Vm).runMove
+//@   requires render.pageOk(vm.pg)
+//@   ensures @page render.pageOk(vm.pg)
 //@   requires[C05,C08] mapSep(vm)
 //@   ensures[C05,C08] @mapsep mapSep(vm)
 //@   serves C04, C05
 //@   requires vmOk(vm)
 //@   requires[C05,C08] memWf(vm.ca)
-//@   requires okStr(b, 0) ==> canDescend(vm.st, strAt(b, 0))
+//@   premise okStr(b, 0) ==> notSelf(vm.st, strAt(b, 0))
+//@   requires @maxlevel okStr(b, 0) ==> belowMax(vm.st, strAt(b, 0))
 //@   requires codeSep(vm, b)
 //@   modifies navMods(vm.st, vm.ca), resetMods(vm), count(codegets), b[*]
 //@   ensures @vm vmOk(vm)
@@ -249,7 +261,7 @@ package vm
 //@   ensures @moved result1 == nil && (old(depth(vm.st)) >= 1 || isNode(strAt(b, 0))) ==> moveTable(vm.st, strAt(b, 0))
 //@   ensures @failed result1 != nil && (old(depth(vm.st)) >= 1 || isNode(strAt(b, 0))) ==> posKept(vm) || moveTable(vm.st, strAt(b, 0))
 //@   ensures[C05,C07] @unmapped result1 == nil ==> unmapped(vm)
-//@   ensures[C05,C08] @lockstep old(levels(vm.ca)) == old(depth(vm.st)) + 1 && old(depth(vm.st)) >= 1 ==> levels(vm.ca) == depth(vm.st) + 1
+//@   ensures[C05,C08] @lockstep old(levels(vm.ca)) == old(depth(vm.st)) + 1 ==> levels(vm.ca) == depth(vm.st) + 1
 
 // CATCH: moves exactly when the flag's state equals the mode.
 // argument layout: symbol, flag number, mode byte
@@ -258,12 +270,15 @@ package vm
 //@ pred catchMode(b) = int(b[afterInt(b, afterStr(b, 0))]) > 0
 //@ ghost catchRest(b) = b[afterInt(b, afterStr(b, 0)) + 1:]
 //@ func (*Vm).runCatch
+//@   requires render.pageOk(vm.pg)
+//@   ensures @page render.pageOk(vm.pg)
 //@   requires[C05,C08] mapSep(vm)
 //@   ensures[C05,C08] @mapsep mapSep(vm)
 //@   serves C06, C04, C05
 //@   requires vmOk(vm) && codeSep(vm, b)
 //@   requires[C05,C08] memWf(vm.ca)
-//@   requires okCatch(b) ==> catchSig(b) < int(vm.st.BitSize) && canDescend(vm.st, strAt(b, 0))
+//@   premise okCatch(b) ==> catchSig(b) < int(vm.st.BitSize) && notSelf(vm.st, strAt(b, 0))
+//@   requires @maxlevel okCatch(b) ==> belowMax(vm.st, strAt(b, 0))
 //@   modifies navMods(vm.st, vm.ca), count(codegets)
 //@   ensures @vm vmOk(vm)
 //@   ensures @flags flagsKept(vm)
@@ -274,17 +289,19 @@ package vm
 //@     && count(codegets) == old(count(codegets)) && levels(vm.ca) == old(levels(vm.ca))
 //@   ensures @match okCatch(b) && old(fl(vm, catchSig(b))) == catchMode(b) && result1 == nil && (old(depth(vm.st)) >= 1 || isNode(strAt(b, 0))) ==> moveTable(vm.st, strAt(b, 0))
 //@   ensures @refused okCatch(b) && old(fl(vm, catchSig(b))) == catchMode(b) && old(moveRefused(vm.st, strAt(b, 0))) ==> result1 != nil && posKept(vm)
-//@   ensures[C05,C08] @lockstep old(levels(vm.ca)) == old(depth(vm.st)) + 1 && old(depth(vm.st)) >= 1 ==> levels(vm.ca) == depth(vm.st) + 1
+//@   ensures[C05,C08] @lockstep old(levels(vm.ca)) == old(depth(vm.st)) + 1 ==> levels(vm.ca) == depth(vm.st) + 1
 
 // CROAK: under the same test, abandons the pending bytecode.
 //@ pred okCroak(b) = okInt(b, 0) && afterInt(b, 0) < len(b)
 //@ func (*Vm).runCroak
+//@   requires render.pageOk(vm.pg)
+//@   ensures @page render.pageOk(vm.pg)
 //@   requires[C05,C08] mapSep(vm)
 //@   ensures[C05,C08] @mapsep mapSep(vm)
 //@   serves C06
 //@   requires vmOk(vm) && codeSep(vm, b)
 //@   requires[C05,C08] memWf(vm.ca)
-//@   requires okCroak(b) ==> intAt(b, 0) < int(vm.st.BitSize)
+//@   premise okCroak(b) ==> intAt(b, 0) < int(vm.st.BitSize)
 //@   modifies resetMods(vm), cac(vm.ca).Cache, cac(vm.ca).CacheUseSize
 //@   ensures @vm vmOk(vm)
 //@   ensures @flags flagsKept(vm) && posKept(vm)
@@ -293,8 +310,13 @@ package vm
 //@   ensures @decode !okCroak(b) ==> result1 != nil
 //@   ensures @nomatch okCroak(b) && old(fl(vm, intAt(b, 0))) != (int(b[afterInt(b, 0)]) > 0) ==> result1 == nil && result0 == b[afterInt(b, 0) + 1:] && levels(vm.ca) == old(levels(vm.ca))
 //@   ensures @match okCroak(b) && old(fl(vm, intAt(b, 0))) == (int(b[afterInt(b, 0)]) > 0) ==> result1 == nil && len(result0) == 0 && levels(vm.ca) == 1
+//@   ensures[C08] @lockstep old(levels(vm.ca)) == old(depth(vm.st)) + 1 ==> levels(vm.ca) == depth(vm.st) + 1
 
 //@ func (*Vm).runHalt
+//@   requires[C05,C08] memWf(vm.ca) && mapSep(vm)
+//@   ensures[C05,C08] @session memWf(vm.ca) && mapSep(vm)
+//@   requires render.pageOk(vm.pg)
+//@   ensures @page render.pageOk(vm.pg) && levels(vm.ca) == old(levels(vm.ca))
 //@   serves C03
 //@   requires vmOk(vm)
 //@   modifies vm.st.Flags[*]
@@ -309,12 +331,15 @@ package vm
 //@ ghost inputStr(vm) = str(vm.st.input)
 //@ pred matches(vm, b) = icSel(b) == inputStr(vm) || icSel(b) == "*"
 //@ func (*Vm).runInCmp
+//@   requires render.pageOk(vm.pg)
+//@   ensures @page render.pageOk(vm.pg)
 //@   requires[C05,C08] mapSep(vm)
 //@   ensures[C05,C08] @mapsep mapSep(vm)
 //@   serves C03, C04, C05
 //@   requires vmOk(vm) && codeSep(vm, b)
 //@   requires[C05,C08] memWf(vm.ca)
-//@   requires okInCmp(b) ==> canDescend(vm.st, icNode(b))
+//@   premise okInCmp(b) ==> notSelf(vm.st, icNode(b))
+//@   requires @maxlevel okInCmp(b) ==> belowMax(vm.st, icNode(b))
 //@   modifies vm.st.Flags[*], navMods(vm.st, vm.ca), resetMods(vm), count(codegets), b[*]
 //@   ensures @vm vmOk(vm)
 //@   ensures @sep codeSep(vm, result0)
@@ -331,7 +356,7 @@ package vm
 //@     && depth(vm.st) > 0 && vm.st.SizeIdx == 0) ==> result1 == nil && posKept(vm) && fl(vm, state.FLAG_READIN) && fl(vm, state.FLAG_INMATCH)
 //@   ensures[C03] @otherflags state.clientFlagsSame(vm.st) && forall(n, 2, 8, bit(vm.st.Flags[0], n) == old(bit(vm.st.Flags[0], n)))
 //@   ensures[C05,C07] @unmapped result1 == nil && !posKept(vm) ==> unmapped(vm)
-//@   ensures[C05,C08] @lockstep old(levels(vm.ca)) == old(depth(vm.st)) + 1 && old(depth(vm.st)) >= 1 ==> levels(vm.ca) == depth(vm.st) + 1
+//@   ensures[C05,C08] @lockstep old(levels(vm.ca)) == old(depth(vm.st)) + 1 ==> levels(vm.ca) == depth(vm.st) + 1
 
 // LOAD/RELOAD back end: at most one external call; the reserved flags 0..5 are
 // not writable by the external function (LOADFAIL is set by the VM itself on
@@ -363,6 +388,10 @@ package vm
 // LOAD: runs the external function at most once, and not at all while the
 // symbol is visible; stores the result at the current level under its limit.
 //@ func (*Vm).runLoad
+//@   requires render.pageOk(vm.pg)
+//@   ensures @page render.pageOk(vm.pg)
+//@   requires codeSep(vm, b)
+//@   ensures @sep codeSep(vm, result0)
 //@   requires[C05,C08] mapSep(vm)
 //@   ensures[C05,C08] @mapsep mapSep(vm)
 //@   serves C05
@@ -385,6 +414,10 @@ package vm
 
 // MAP <symbol>
 //@ func (*Vm).runMap
+//@   requires[C05,C08] memWf(vm.ca) && mapSep(vm)
+//@   ensures[C05,C08] @session memWf(vm.ca) && mapSep(vm) && levels(vm.ca) == old(levels(vm.ca))
+//@   requires codeSep(vm, b)
+//@   ensures @sep codeSep(vm, result0)
 //@   serves C05
 //@   requires vmOk(vm) && render.pageOk(vm.pg)
 //@   requires[C05] cache.unique(cac(vm.ca))
@@ -396,6 +429,8 @@ package vm
 // stored nor mapped in place of the old one.
 //@ ghost scopeOf(vm, k) = cac(vm.ca).Cache[cache.scope(cac(vm.ca), k)]
 //@ func (*Vm).runReload
+//@   requires codeSep(vm, b)
+//@   ensures @sep codeSep(vm, result0)
 //@   requires[C05,C08] mapSep(vm)
 //@   ensures[C05,C08] @mapsep mapSep(vm)
 //@   serves C05
@@ -408,3 +443,110 @@ package vm
 //@   ensures @decode old(!okStr(b, 0)) ==> result1 != nil && count(extcalls) == old(count(extcalls))
 //@   ensures[C05] @once count(extcalls) <= old(count(extcalls)) + 1 && (result1 == nil ==> count(extcalls) == old(count(extcalls)) + 1)
 //@   ensures[C05] @mapped result1 == nil ==> in(old(loadSym(b)), vm.pg.cacheMap) && vm.pg.cacheMap[old(loadSym(b))] == scopeOf(vm, old(loadSym(b)))[old(loadSym(b))]
+
+// ---- menu instructions: change the current menu only ----
+//@ modset menuMods(vm) = vm.mn.menu, vm.mn.menu[*], vm.mn.sink, vm.mn.pageCount, vm.mn.browse
+//@ func (*Vm).runMSink
+//@   requires[C05,C08] memWf(vm.ca) && mapSep(vm)
+//@   ensures[C05,C08] @session memWf(vm.ca) && mapSep(vm)
+//@   requires render.pageOk(vm.pg)
+//@   ensures @page render.pageOk(vm.pg) && levels(vm.ca) == old(levels(vm.ca))
+//@   requires vmOk(vm)
+//@   modifies menuMods(vm)
+//@   ensures @vm vmOk(vm) && posKept(vm) && flagsKept(vm) && result0 == b && vm.mn == old(vm.mn)
+//@ func (*Vm).runMOut
+//@   requires[C05,C08] memWf(vm.ca) && mapSep(vm)
+//@   ensures[C05,C08] @session memWf(vm.ca) && mapSep(vm)
+//@   requires render.pageOk(vm.pg)
+//@   ensures @page render.pageOk(vm.pg) && levels(vm.ca) == old(levels(vm.ca))
+//@   requires vmOk(vm)
+//@   modifies menuMods(vm)
+//@   ensures @vm vmOk(vm) && posKept(vm) && flagsKept(vm) && vm.mn == old(vm.mn) && (result0 == nil || sameBacking(result0, b))
+//@ func (*Vm).runMNext
+//@   requires[C05,C08] memWf(vm.ca) && mapSep(vm)
+//@   ensures[C05,C08] @session memWf(vm.ca) && mapSep(vm)
+//@   requires render.pageOk(vm.pg)
+//@   ensures @page render.pageOk(vm.pg) && levels(vm.ca) == old(levels(vm.ca))
+//@   requires vmOk(vm)
+//@   modifies menuMods(vm)
+//@   ensures @vm vmOk(vm) && posKept(vm) && flagsKept(vm) && vm.mn == old(vm.mn) && (result0 == nil || sameBacking(result0, b))
+//@ func (*Vm).runMPrev
+//@   requires[C05,C08] memWf(vm.ca) && mapSep(vm)
+//@   ensures[C05,C08] @session memWf(vm.ca) && mapSep(vm)
+//@   requires render.pageOk(vm.pg)
+//@   ensures @page render.pageOk(vm.pg) && levels(vm.ca) == old(levels(vm.ca))
+//@   requires vmOk(vm)
+//@   modifies menuMods(vm)
+//@   ensures @vm vmOk(vm) && posKept(vm) && flagsKept(vm) && vm.mn == old(vm.mn) && (result0 == nil || sameBacking(result0, b))
+
+//@ pred isMoveCatch(r) = len(r) == 9 && opAt(r, 0) == MOVE && okStr(r, 2) && strAt(r, 2) == "_catch"
+
+// errors of an instruction: shown on the page; with LOADFAIL set they become MOVE _catch
+//@ func (*Vm).runErrCheck
+//@   requires[C05,C08] memWf(vm.ca) && mapSep(vm)
+//@   ensures[C05,C08] @session memWf(vm.ca) && mapSep(vm)
+//@   requires render.pageOk(vm.pg) && codeSep(vm, b)
+//@   ensures @page render.pageOk(vm.pg) && levels(vm.ca) == old(levels(vm.ca))
+//@   ensures @sep codeSep(vm, result0)
+//@   requires vmOk(vm)
+//@   modifies vm.pg.err
+//@   ensures @vm vmOk(vm) && posKept(vm) && flagsKept(vm)
+//@   ensures @pass err == nil ==> result0 == b && result1 == nil && unchanged(vm.pg.err)
+//@   ensures @fail err != nil && !fl(vm, state.FLAG_LOADFAIL) ==> result0 == b && result1 == err
+//@   ensures @catch err != nil && fl(vm, state.FLAG_LOADFAIL) ==> result1 == nil && isMoveCatch(result0) && fresh(result0)
+
+// out of bytecode: TERMINATE outside input handling (C20), otherwise the
+// unmatched input goes to the catch node with an invalid-input message (C03)
+//@ func (*Vm).runDeadCheck
+//@   requires[C05,C08] memWf(vm.ca) && mapSep(vm)
+//@   ensures[C05,C08] @session memWf(vm.ca) && mapSep(vm)
+//@   requires render.pageOk(vm.pg) && codeSep(vm, b)
+//@   ensures @page render.pageOk(vm.pg) && levels(vm.ca) == old(levels(vm.ca))
+//@   ensures @sep codeSep(vm, result0)
+//@   serves C03, C20
+//@   requires vmOk(vm)
+//@   modifies vm.st.Flags[*], vm.pg.err
+//@   ensures @vm vmOk(vm) && posKept(vm)
+//@   ensures @more len(b) > 0 ==> result0 == b && result1 == nil && flagsKept(vm) && unchanged(vm.pg.err)
+//@   ensures[C20] @terminate len(b) == 0 && !old(fl(vm, state.FLAG_READIN)) ==> result1 == nil && len(result0) == 0 && fl(vm, state.FLAG_TERMINATE)
+//@     && state.otherFlagsSame(vm.st, state.FLAG_TERMINATE)
+//@   ensures[C03] @invalid len(b) == 0 && old(fl(vm, state.FLAG_READIN)) && !old(fl(vm, state.FLAG_TERMINATE)) && depth(vm.st) > 0 && state.last(vm.st) != "_catch" && state.last(vm.st) != ""
+//@     ==> result1 == nil && isMoveCatch(result0) && flagsKept(vm) && typeis[InvalidInputError](vm.pg.err)
+//@     && (vm.st.input != nil ==> as[InvalidInputError](vm.pg.err).input == inputStr(vm))
+//@   ensures[C03] @loop len(b) == 0 && old(fl(vm, state.FLAG_READIN)) && !old(fl(vm, state.FLAG_TERMINATE)) && (depth(vm.st) == 0 || state.last(vm.st) == "_catch" || state.last(vm.st) == "") ==> result1 != nil
+
+// ---- the instruction loop ----
+// Session invariant carried across every instruction (C08): the VM object is
+// consistent, the cache representation invariant holds, the cache has one
+// scope per navigation level, the pending code does not alias the flags.
+//@ pred runInv(vm, b) = vmOk(vm) && noWrap(vm) && render.pageOk(vm.pg) && codeSep(vm, b)
+//@ pred session(vm) = memWf(vm.ca) && mapSep(vm) && levels(vm.ca) == depth(vm.st) + 1
+// the Vm keeps its parts
+//@ pred sameParts(vm) = vm.st == old(vm.st) && vm.ca == old(vm.ca) && vm.pg == old(vm.pg) && vm.rs == old(vm.rs) && vm.sizer == old(vm.sizer)
+//@ pred untouched(vm) = posKept(vm) && flagsKept(vm) && count(extcalls) == old(count(extcalls)) && count(codegets) == old(count(codegets)) && levels(vm.ca) == old(levels(vm.ca))
+//@ func (*Vm).Run
+//@   serves C03, C06, C08, C20, C05, C04
+//@   requires runInv(vm, b)
+//@   requires[C05,C08] session(vm)
+//@   modifies everything
+//@   ensures @vm vmOk(vm)
+//@   ensures @nowrap noWrap(vm)
+//@   ensures @page render.pageOk(vm.pg)
+//@   ensures @sep codeSep(vm, result0)
+//@   ensures @parts sameParts(vm)
+//@   ensures[C05,C08] @session session(vm)
+//@   ensures[C06,C20] @blocked old(fl(vm, state.FLAG_TERMINATE)) ==> result1 == nil && len(result0) == 0 && untouched(vm)
+//@   loop 1 modifies everything
+//@   loop 1 invariant @vm vmOk(vm)
+//@   loop 1 invariant @nowrap noWrap(vm)
+//@   loop 1 invariant @page render.pageOk(vm.pg)
+//@   loop 1 invariant @sep codeSep(vm, b)
+//@   loop 1 invariant @parts sameParts(vm)
+//@   loop 1 invariant[C05,C08] @session session(vm)
+//@   loop 1 invariant[C06,C20] @first old(fl(vm, state.FLAG_TERMINATE)) ==> untouched(vm)
+// no instruction is dispatched while TERMINATE is set
+//@   callsite * assert[C06,C20] @gate !iterold(fl(vm, state.FLAG_TERMINATE))
+// when execution resumes after a HALT, INMATCH is clear before the first INCMP (C03)
+//@   callsite (*Vm).runInCmp assert[C03] @resumed iterold(fl(vm, state.FLAG_WAIT)) ==> !fl(vm, state.FLAG_INMATCH)
+// ... and the renderer carries nothing over (C05, C07)
+//@   callsite * assert[C05,C07] @fresh iterold(fl(vm, state.FLAG_WAIT)) ==> unmapped(vm) && len(vm.mn.menu) == 0 && !vm.mn.sink
